@@ -35,7 +35,8 @@ TRUSTED = ["modelled, not verified: python-can can.Message construction (a remot
            "python-can does not recompute dlc when .data is assigned; PeriodicMessageTask.update sets it (fix 7181830), "
            "the oracle demands dlc = len(data) of every updated message"]
 ASSUMPTIONS = ["callbacks are identities in the model (the harness uses real bound methods, equal but not identical at every use, "
-               "for node callbacks and for even-numbered user callbacks, plain functions for odd-numbered ones)",
+               "for node callbacks and for user callbacks 0 and 3, plain functions for 1 and 4, a list-derived callable "
+               "that is falsy while empty for 2, a callable with __bool__ (falsy before its first frame) for 5; all with identity equality)",
                "callbacks do not raise and do not modify subscriptions while being invoked",
                "timestamps are injected integers"]
 
@@ -114,6 +115,35 @@ class Recorder:
         _LOG.append((self.hv, can_id, bytes(data), timestamp))
 
 
+class ListRec(list):
+    """Callable frame recorder derived from list: FALSY while it has not received a frame (len 0).
+    Identity equality, so that two empty recorders are different callbacks."""
+    def __init__(self, hv):
+        super().__init__()
+        self._hv = hv
+
+    def __call__(self, can_id, data, timestamp):
+        self.append((can_id, bytes(data), timestamp))
+        _LOG.append((self._hv, can_id, bytes(data), timestamp))
+
+    def __eq__(self, other): return self is other
+    def __ne__(self, other): return self is not other
+    __hash__ = object.__hash__
+
+
+class BoolRec:
+    """Callable with __bool__: falsy until it has received its first frame."""
+    def __init__(self, hv):
+        self._hv = hv
+        self.count = 0
+
+    def __call__(self, can_id, data, timestamp):
+        self.count += 1
+        _LOG.append((self._hv, can_id, bytes(data), timestamp))
+
+    def __bool__(self): return self.count > 0
+
+
 class FakeBus:
     """Records what the library hands to python-can."""
     channel_info = "fake"
@@ -164,9 +194,12 @@ class World:
     _n = 0
 
     def ucb(self, u):
-        """even u: a bound method created afresh at every use; odd u: one function object"""
+        """u = 2: a list-derived callable (falsy while empty); u = 5: a callable with __bool__ (falsy before
+        its first frame); other u: u % 3 == 0 a bound method created afresh at every use, else one
+        function object"""
         if u not in self.user:
-            self.user[u] = Recorder([0, u]) if u % 2 == 0 else _mkcb([0, u])
+            self.user[u] = (ListRec([0, u]) if u == 2 else BoolRec([0, u]) if u == 5 else
+                            Recorder([0, u]) if u % 3 == 0 else _mkcb([0, u]))
         r = self.user[u]
         return r.on_frame if isinstance(r, Recorder) else r
 
@@ -600,12 +633,12 @@ def gen_history(rng, nsteps, dirty):
     # objects, and one that collides with an id already in use (a node's own SDO tx id or a free id)
     xtx = [0x5C0 + rng.choice(nids) % 0x40, 0x5FF, rng.choice(node_cobs[1:] + free)]
     ids = node_cobs + free + xtx[:2]
-    users = list(range(4))
+    users = list(range(6))
     ops = []
     ts = 0
     n_sdo = 0
     weights = [("sub", 20), ("unsub1", 11), ("unsuball", 3), ("add", 9), ("del", 5), ("notify", 40), ("recv", 9),
-               ("reset", 1), ("resub2", 2), ("add_sdo", 3), ("reassoc", 3), ("bus", 2)]
+               ("reset", 1), ("resub2", 2), ("add_sdo", 3), ("reassoc", 3), ("bus", 2), ("falsy", 2)]
     connected = False
     if dirty:
         weights += [("tamper", 3)]
@@ -615,6 +648,14 @@ def gen_history(rng, nsteps, dirty):
         k = rng.choices(names, ws)[0]
         if k == "sub":
             ops.append(["sub", rng.choice(ids), rng.choice(users)])
+        elif k == "falsy":    # a callable that may be falsy unsubscribed next to other subscribers of the id
+            c, u, v = rng.choice(ids), rng.choice((2, 5)), rng.choice((0, 1, 3, 4, 2, 5))
+            ops += [["sub", c, v], ["sub", c, u]]
+            if rng.random() < 0.5:
+                ts += 1
+                ops.append(["notify", c, [rng.randrange(256)], ts])
+            ts += 1
+            ops += [["unsub", c, ["u", u]], ["notify", c, [rng.randrange(256)], ts]]
         elif k == "resub2":   # the same subscription twice in a row
             c, u = rng.choice(ids), rng.choice(users)
             ops += [["sub", c, u], ["sub", c, u]]
